@@ -212,6 +212,10 @@ func (opt *Option) DeepCopy() Option {
 	for _, assignment := range opt.Assignments {
 		clone.Assignments = append(clone.Assignments, assignment.DeepCopy())
 	}
+	if opt.Default != nil {
+		optDefault := opt.Default.DeepCopy()
+		clone.Default = &optDefault
+	}
 
 	return clone
 }
@@ -222,6 +226,17 @@ func (opt *Option) AddToVeneerTrail(veneerName string) {
 
 type OptionDefault struct {
 	ArgsValues []any
+}
+
+func (optDefault *OptionDefault) DeepCopy() OptionDefault {
+	clone := OptionDefault{}
+
+	if optDefault.ArgsValues != nil {
+		clone.ArgsValues = make([]any, 0, len(optDefault.ArgsValues))
+		clone.ArgsValues = append(clone.ArgsValues, optDefault.ArgsValues...)
+	}
+
+	return clone
 }
 
 type Argument struct {
